@@ -147,7 +147,8 @@ impl<'a> Emitter<'a> {
     }
 
     fn col(&self) -> u32 {
-        self.cur.len() as u32 + 1
+        // the parser counts characters, not bytes
+        self.cur.chars().count() as u32 + 1
     }
 
     fn newline(&mut self) {
@@ -156,8 +157,8 @@ impl<'a> Emitter<'a> {
             Some(i) => &self.cur[..i],
             None => &self.cur[..],
         };
-        let trimmed_end = code.trim_end().len();
-        let lead = code.len() - code.trim_start().len();
+        let trimmed_end = code.trim_end().chars().count();
+        let lead = code.chars().count() - code.trim_start().chars().count();
         if trimmed_end > lead {
             let row = self.lines.len() as u32 + 1;
             self.out
